@@ -132,6 +132,10 @@ impl BRC20ProgEngine {
     pub fn mine_blocks(&self, mut block_count: u64, timestamp: u64) -> Result<(), Box<dyn Error>> {
         self.require_no_waiting_txes()?;
 
+        if block_count == 0 {
+            return Ok(());
+        }
+
         let mut block_number = self.get_next_block_height()?;
 
         if self.get_block_by_number(0, false)?.is_none() {
